@@ -4,7 +4,7 @@
 From Coq Require Import List NArith Bool Arith Sorted.
 From Coq Require Import Strings.Byte.
 Require Import BS.Bytes BS.Common BS.Api BS.Layout BS.Format BS.FormatFacts BS.Spec BS.SpecStep.
-Require Import BS.FS BS.FSFacts BS.Meta BS.MetaFacts BS.Header BS.Reader BS.ReaderFacts BS.Index BS.Data BS.DataFacts BS.Seek BS.Series BS.SeriesFacts.
+Require Import BS.FS BS.FSFacts BS.Meta BS.MetaFacts BS.Header BS.Reader BS.ReaderFacts BS.Index BS.Data BS.DataFacts BS.Seek BS.Series BS.SeriesFacts BS.CacheFacts.
 Import ListNotations.
 
 (* (I refines S) an append is accepted iff `accepts` (Layer S: right length, strictly after the last
@@ -24,3 +24,22 @@ Proof. exact push_line_ok. Qed.
 Print Assumptions C03_append_refines_spec.
 (* partial: stability of the rule across reopen and tail repair needs the open theorem (C04/C05), which
    is not proved yet; that part is covered by the judge + correspondence runs. *)
+
+(* (I refines S) the same with any number of cache levels (invariant RepS, props/C08.v): an accepted append extends the source
+   and every level; a refused one returns an error and writes nothing - the checks precede every write *)
+Theorem C03_accepted_with_caches : forall fs s p hdr ihdr l cs ts pay,
+  RepS fs s p hdr ihdr l cs -> accepts p l ts pay = true ->
+  exists fs' s', push_line s ts pay fs = (fs', Ok s')
+    /\ RepS fs' s' p hdr ihdr (l ++ [(ts, pay)]) cs
+    /\ (forall g, ~ In g (all_files s) -> fs_get fs' g = fs_get fs g)
+    /\ all_files s' = all_files s /\ s_cb s' = s_cb s
+    /\ of_name (d_file (s_data s')) = of_name (d_file (s_data s))
+    /\ of_name (ix_file (d_index (s_data s'))) = of_name (ix_file (d_index (s_data s)))
+    /\ map cache_files (s_down s') = map cache_files (s_down s).
+Proof. exact push_line_caches. Qed.
+Print Assumptions C03_accepted_with_caches.
+Theorem C03_refused_with_caches : forall fs s p hdr ihdr l cs ts pay,
+  RepS fs s p hdr ihdr l cs -> (ts < 2^64)%N -> accepts p l ts pay = false ->
+  exists e, push_line s ts pay fs = (fs, Err e).
+Proof. exact push_refused_caches. Qed.
+Print Assumptions C03_refused_with_caches.
